@@ -33,6 +33,7 @@ type Verifier struct {
 	ghosts    map[string]*GhostVar
 	zeroedGhosts []string
 	bridges   map[string][]*afBridge
+	wiring    map[string]*types.Var // heap keys of fields declared "wiring" (and found never to be assigned after construction)
 	axioms    []*boundAxiom
 	lemmas    []*boundLemma
 	purePats  []string
@@ -134,6 +135,7 @@ func loadVerifier(repo string, specDir string) (*Verifier, error) {
 		}
 	}
 	v.computeBridges()
+	v.checkWiring()
 	return v, nil
 }
 
@@ -202,6 +204,34 @@ func (v *Verifier) addFile(cf *ContractFile, pkg *types.Package) error {
 				v.guards = map[string]*boundGuard{}
 			}
 			v.guards[fieldKey(obj.Type(), f)] = &boundGuard{Struct: obj.Type(), Mutex: mu, Label: g.Label}
+		}
+	}
+	for _, g := range cf.Immutable {
+		if pkg == nil {
+			return fmt.Errorf("%s: wiring needs a package", g.Pos)
+		}
+		obj := pkg.Scope().Lookup(g.Struct)
+		if obj == nil {
+			return fmt.Errorf("%s: wiring: unknown struct %s", g.Pos, g.Struct)
+		}
+		stt, ok := obj.Type().Underlying().(*types.Struct)
+		if !ok {
+			return fmt.Errorf("%s: wiring: %s is not a struct", g.Pos, g.Struct)
+		}
+		for _, fname := range g.Fields {
+			var f *types.Var
+			for i := 0; i < stt.NumFields(); i++ {
+				if stt.Field(i).Name() == fname {
+					f = stt.Field(i)
+				}
+			}
+			if f == nil {
+				return fmt.Errorf("%s: wiring: no field %s in %s (detached declaration)", g.Pos, fname, g.Struct)
+			}
+			if v.wiring == nil {
+				v.wiring = map[string]*types.Var{}
+			}
+			v.wiring[fieldKey(obj.Type(), f)] = f
 		}
 	}
 	for _, ct := range cf.Contracts {
@@ -1066,4 +1096,69 @@ func (v *Verifier) solveAll(obls []*Obligation, workers int) {
 	}
 	close(ch)
 	wg.Wait()
+}
+
+// checkWiring keeps a "wiring" declaration only if, in the current source, the field is stored to nowhere in the
+// repository except into an object allocated in the same function (construction). Otherwise the declaration is
+// dropped with a note, and calls that may modify anything also forget the field.
+func (v *Verifier) checkWiring() {
+	if len(v.wiring) == 0 {
+		return
+	}
+	bad := map[string]string{}
+	var scan func(fn *ssa.Function)
+	scan = func(fn *ssa.Function) {
+		for _, b := range fn.Blocks {
+			for _, in := range b.Instrs {
+				st, ok := in.(*ssa.Store)
+				if !ok {
+					continue
+				}
+				fa, ok := st.Addr.(*ssa.FieldAddr)
+				if !ok {
+					continue
+				}
+				pt, ok := fa.X.Type().Underlying().(*types.Pointer)
+				if !ok {
+					continue
+				}
+				stt, ok := pt.Elem().Underlying().(*types.Struct)
+				if !ok {
+					continue
+				}
+				k := fieldKey(pt.Elem(), stt.Field(fa.Field))
+				if _, decl := v.wiring[k]; !decl {
+					continue
+				}
+				if _, isAlloc := fa.X.(*ssa.Alloc); isAlloc {
+					continue // construction of a new object
+				}
+				bad[k] = fn.String()
+			}
+		}
+		for _, a := range fn.AnonFuncs {
+			scan(a)
+		}
+	}
+	for _, sp := range v.ssaPkgs {
+		for _, m := range sp.Members {
+			switch x := m.(type) {
+			case *ssa.Function:
+				scan(x)
+			case *ssa.Type:
+				for _, recv := range []types.Type{x.Type(), types.NewPointer(x.Type())} {
+					ms := v.prog.MethodSets.MethodSet(recv)
+					for i := 0; i < ms.Len(); i++ {
+						if fn := v.prog.MethodValue(ms.At(i)); fn != nil && fn.Pkg == sp {
+							scan(fn)
+						}
+					}
+				}
+			}
+		}
+	}
+	for k, where := range bad {
+		v.loadNotes = append(v.loadNotes, "wiring declaration dropped: "+k+" is assigned in "+where)
+		delete(v.wiring, k)
+	}
 }
